@@ -606,43 +606,27 @@ func rawExtractSuffixes(re *syntax.Regexp, ci bool) []string {
 		return result
 
 	case syntax.OpConcat:
-		// Try the full extractLiterals pipeline first (handles deeper nesting
-		// through the trieReconstruct fallback it already calls).
-		lits := extractLiterals(re, ci)
-		if lits != nil {
-			switch v := lits.(type) {
-			case allRequired:
-				// Only safe to return a single trie suffix when the concat
-				// collapses to exactly one contiguous literal. Multiple
-				// allRequired elements mean there are wildcards between them
-				// (e.g. "elect.*from" → allRequired{"elect","from"}). Joining
-				// them would produce "electfrom" — a phantom string that never
-				// appears contiguously in a real input — causing false negatives
-				// on valid matches like "select x from". Return nil here so the
-				// caller falls back to the safer anyRequired propagation instead.
-				if len(v) == 1 {
-					return []string{v[0]}
+		// The suffix is appended directly to the caller's prefix, so it must be a
+		// literal the branch STARTS with; a literal found anywhere else in the
+		// concatenation would produce a phantom needle (e.g. "s"+"elect" for s.*elect).
+		if len(re.Sub) == 0 {
+			return nil
+		}
+		head := rawLiteral(re.Sub[0], ci)
+		if head == "" {
+			return nil
+		}
+		// Nested trie node emitted by Simplify: literal followed by an alternation.
+		if len(re.Sub) == 2 && re.Sub[1].Op == syntax.OpAlternate {
+			if tails := rawExtractSuffixes(re.Sub[1], ci); tails != nil {
+				out := make([]string, 0, len(tails))
+				for _, t := range tails {
+					out = append(out, head+t)
 				}
-				return nil
-			case anyRequired:
-				return []string(v)
-			case combinedRequired:
-				// For trie-reconstruction we need a suffix that is *always* present
-				// when this sub-concat fires. The .all elements are guaranteed;
-				// .any elements are only conditionally present (one of them must be
-				// present, but not a specific one). Returning a .any element would
-				// let the outer prefix combine with a wrong suffix (e.g. "s"+"execute"
-				// instead of "s"+"p_"+"execute" → "sp_execute"), producing a phantom
-				// literal that never appears contiguously in real input.
-				// Return the single longest .all element as the guaranteed suffix.
-				rep := longest([]string(v.all))
-				if rep == "" {
-					return nil
-				}
-				return []string{rep}
+				return out
 			}
 		}
-		return nil
+		return []string{head}
 
 	case syntax.OpCapture:
 		return rawExtractSuffixes(re.Sub[0], ci)
